@@ -32,7 +32,12 @@ def _job(args):
             wb.remove(wb.active)
             sheets = [wb.create_sheet(t) for t in TITLES]
             for cell in rec['gate']:
-                sheets[cell['s'] - 1].cell(row=cell['r'], column=cell['c'], value=text_of(cell['t']))
+                t = text_of(cell['t'])
+                if t.startswith('=') and (idx + k) % 2:
+                    # every second workbook stores its formula-like texts as array formulas ({=...}): the same text, read from another place
+                    from openpyxl.worksheet.formula import ArrayFormula
+                    t = ArrayFormula(f"{repo.col_letters(cell['c'])}{cell['r']}", t)
+                sheets[cell['s'] - 1].cell(row=cell['r'], column=cell['c'], value=t)
             wb.save(x)
             for gate in (True, False):
                 ev = {'titles': [[ord(ch) for ch in t] for t in TITLES], 'cells': [[c['s'], c['c'], c['r'], c['t']] for c in rec['gate']], 'gate': gate,
